@@ -233,6 +233,23 @@ AllOf(s) ==
     /\ res' = [op |-> "all", s |-> s, items |-> AllItems(SrcMap(s))]
     /\ UNCHANGED << tree, txn, iter, chan, head >>
 
+\* Txn.All whose callback writes to the same transaction when it receives element number `at`
+\* (1-based): the listing is that of the moment of the call, whatever the callback does
+AllW(x, at, kind, k, v) ==
+    /\ Open(x)
+    /\ LET m    == txn[x].m
+           fire == at <= Len(m)
+           had  == Has(m, k)
+           chg  == fire /\ (kind = "insert" \/ had)
+           m2   == IF ~fire THEN m
+                   ELSE IF kind = "insert" THEN MapPut(m, k, v)
+                   ELSE IF had THEN MapDel(m, k) ELSE m
+       IN /\ txn' = [txn EXCEPT ![x].m = m2, ![x].dirty = @ \/ chg,
+                                ![x].changed = IF chg THEN @ \cup {k} ELSE @]
+          /\ res' = [op |-> "allw", x |-> x, at |-> at, kind |-> kind, k |-> k, v |-> v, items |-> AllItems(m)]
+          /\ chan' = IF chg /\ txn[x].lin THEN DoomFor(x, k) ELSE chan
+    /\ UNCHANGED << tree, iter, head >>
+
 IterNext(f) ==
     /\ f \in DOMAIN iter
     /\ LET its == iter[f].items IN
@@ -352,6 +369,7 @@ Step ==
     \/ \E s \in Srcs, k \in Keys, f \in Fresh(DOMAIN iter, MaxIter) : LowerBound(s, k, f)
     \/ \E s \in Srcs, f \in Fresh(DOMAIN iter, MaxIter) : Iterate(s, f)
     \/ \E s \in Srcs : AllOf(s) \/ LenOf(s)
+    \/ \E x \in DOMAIN txn, at \in 1..2, kd \in {"insert", "delete"}, k \in Keys : AllW(x, at, kd, k, 2)
     \/ \E f \in DOMAIN iter : IterNext(f) \/ IterAll(f)
     \/ \E x \in DOMAIN txn, t \in Fresh(DOMAIN tree, MaxTree) : Clone(x, t) \/ Commit(x, t)
     \/ \E x \in DOMAIN txn, C \in MayClose : Notify(x, C)
